@@ -54,3 +54,9 @@ CORPUS += [
       '            CapabilityId.BREEZE_AWAY: reader("breeze_control", get_value(1)),\n            CapabilityId.BREEZE_CONTROL: reader("breeze_away", get_value(1)),'),
     M("n-readback-two-steps", D, "            if (value := res.get_property(PropertyId.SELF_CLEAN)) is not None:", "            value = res.get_property(PropertyId.SELF_CLEAN)\n            if value is not None:", "S"),
 ]
+# round 7 (C16.b): only apply takes ids out of the pending set; (C16.e) a properties response owns its values
+CORPUS += [
+    M("refresh-clears-pending", D, "        commands = []\n\n        # Always request state updates", "        commands = []\n        self._updated_properties.clear()\n\n        # Always request state updates"),
+    M("properties-dict-class-level", C, "class PropertiesResponse(Response):\n    \"\"\"Response to properties query.\"\"\"\n\n    def __init__(self, payload: memoryview) -> None:\n        super().__init__(payload)\n\n        self._properties = {}\n",
+      "class PropertiesResponse(Response):\n    \"\"\"Response to properties query.\"\"\"\n\n    _properties: dict = {}\n\n    def __init__(self, payload: memoryview) -> None:\n        super().__init__(payload)\n"),
+]
